@@ -58,6 +58,7 @@ class Ctx:
         self.rng = random.Random(f"{seed}:{prop}:{shard}")
         self.evaluations = 0
         self.nt = set()
+        self.nt_extra = 0  # distinct non-trivial cases counted without materialising keys (see check's rule)
         self.samples = []
         self.viol = {}  # cls -> dict(count, items[])
         self.counters = collections.Counter()
@@ -97,6 +98,7 @@ class Ctx:
         return {
             "evaluations": self.evaluations,
             "nt": sorted(self.nt),
+            "nt_extra": self.nt_extra,
             "samples": self.samples,
             "viol": self.viol,
             "counters": dict(self.counters),
@@ -192,11 +194,12 @@ def driver_main(prop, tier, seed, replay=None, nshards=None):
             results.append(json.load(f))
     subprocess.run(["rm", "-rf", tmpdir])
 
-    merged = {"evaluations": 0, "nt": set(), "samples": [], "viol": {}, "counters": collections.Counter(),
+    merged = {"evaluations": 0, "nt_extra": 0, "nt": set(), "samples": [], "viol": {}, "counters": collections.Counter(),
               "reach": collections.Counter()}
     for r in results:
         merged["evaluations"] += r["evaluations"]
         merged["nt"].update(r["nt"])
+        merged["nt_extra"] += r.get("nt_extra", 0)
         merged["samples"].extend(r["samples"][:1] if len(merged["samples"]) >= 3 else r["samples"][:2])
         merged["counters"].update(r["counters"])
         for rk, rv in r.get("reach", {}).items():
@@ -218,8 +221,9 @@ def driver_main(prop, tier, seed, replay=None, nshards=None):
         if merged["reach"].get(f"{mname}.{fname}", 0) <= 0:
             inconclusive.append(f"anchor-not-reached:{mname}.{fname}")
     min_nt = spec.get("min_nontrivial", 2)
-    if len(merged["nt"]) < min_nt:
-        inconclusive.append(f"too-few-nontrivial:{len(merged['nt'])}<{min_nt}")
+    n_nt = len(merged["nt"]) + merged["nt_extra"]
+    if n_nt < min_nt:
+        inconclusive.append(f"too-few-nontrivial:{n_nt}<{min_nt}")
 
     known = [k for k in load_known() if k["property"] == prop and k["status"] == "known"]
     known_by_cls = {k["classifier"]: k for k in known}
@@ -252,7 +256,7 @@ def driver_main(prop, tier, seed, replay=None, nshards=None):
     wall = time.time() - t0
     cov = {
         "evaluations": merged["evaluations"],
-        "distinct_nontrivial": len(merged["nt"]),
+        "distinct_nontrivial": n_nt,
         "rule": spec["rule"],
         "samples": merged["samples"] or [{"note": "no sample recorded"}],
         "exhaustive": bool(spec.get("exhaustive", {}).get(tier, False)) if isinstance(spec.get("exhaustive"), dict)
@@ -286,7 +290,7 @@ def driver_main(prop, tier, seed, replay=None, nshards=None):
         print(ln)
     verdict = "violated" if n_viol else ("inconclusive" if inconclusive else "held")
     print(f"{prop} tier={tier} seed={seed} verdict={verdict} evaluations={merged['evaluations']} "
-          f"distinct_nontrivial={len(merged['nt'])} known_hits={sum(known_hits.values())} wall={wall:.1f}s")
+          f"distinct_nontrivial={n_nt} known_hits={sum(known_hits.values())} wall={wall:.1f}s")
     if n_viol:
         return 1
     if inconclusive:
